@@ -446,6 +446,7 @@ class Machine:
         self.halt_on_fallthrough = True
         self._fp_epoch = -1
         self._fps: set = set()
+        self.called: set = set()  # targets of linking jumps executed on this path
         self.regions = None  # per text line: owner function name (C07)
         self.entries = set()  # first line of every function region
 
@@ -597,6 +598,7 @@ class Machine:
             tgt = self.pc + tgt
         if link:
             self.regs[17] = float(self.pc + 1)
+            self.called.add(tgt)
         if self.monitor is not None:
             self.monitor.jump(self, ins, tgt, link)
         if tgt <= self.pc:
